@@ -664,10 +664,10 @@ Section PipelineShaped.
     induction vds as [|vd r IH]; intros ms Hnd Hd Hn Hsh; simpl.
     - repeat split; auto. intros vd [].
     - simpl in Hd, Hsh. apply andb_true_iff in Hd. destruct Hd as [Hd1 Hd2].
-      apply andb_true_iff in Hsh. destruct Hsh as [Hs1 Hs2]. inversion Hnd; subst.
-      pose proof (norm_var_ok vd ms Hd1 Hn Hs1) as H1.
+      apply andb_true_iff in Hsh. destruct Hsh as [Hs1 Hs2]. inversion Hnd as [|? ? H1 H2]; subst.
+      pose proof (norm_var_ok vd ms Hd1 Hn Hs1) as Hv1.
       destruct (norm_var q S reparse vd ms) as [ms3| | |]; try contradiction; auto.
-      destruct H1 as [Hn3 [Hoth Hres]].
+      destruct Hv1 as [Hn3 [Hoth Hres]].
       assert (Hs3 : forallb (var_shaped ms3) r = true).
       { rewrite forallb_forall in *. intros v Hv. specialize (Hs2 v Hv). unfold var_shaped in *.
         rewrite (norm_value_ext v ms3 ms); auto. apply Hoth. intros E. apply H1. rewrite <- E. apply in_map. auto. }
@@ -709,7 +709,7 @@ Section PipelineShaped.
     apply nodupb_NoDup in Hv.
     pose proof (normalise_ok vds ms Hv Hdef Hj Hsh) as Hn.
     unfold accepts, pipeline.
-    destruct (normalise q S reparse vds ms) as [ms'| | |]; try contradiction; [|congruence].
+    destruct (normalise q S reparse vds ms) as [ms'| | |]; try contradiction; try congruence.
     destruct Hn as [Hn' [_ Hres]].
     assert (Hperm : Permutation.Permutation (remap q vds) vds) by (apply remap_perm; eapply no_upload_ref_vars; eauto).
     assert (Hval : validate q S (remap q vds) (JObj ms') = None
